@@ -146,7 +146,7 @@ def run_shard(spec):
     checkpoint_header_lane(st, rng, 20 if tier == "quick" else 300)
     two_thread_lane(st, rng, 8 if tier == "quick" else 120)
     if spec["shard"] % 4 == 0:
-        miner_route_lane(st, rng, 2 if tier == "quick" else 20)
+        miner_route_lane(st, rng, 3 if tier == "quick" else 20)
     return st.result()
 
 
@@ -287,9 +287,10 @@ def miner_route_lane(st, rng, nsetups):
     found-block handler builds with an id below its target must carry the commitment of ITS OWN transaction list"""
     from skv.props import c12
     mon = c12.Monitor()
+    mon.other_miner_prob = 0.8        # (most hits come after another miner process has asked for work on a grown pool)
     env.boot()
     for j in range(nsetups):
-        c12.run_setup(mon, rng, 7000 + j, 3)
+        c12.run_setup(mon, rng, 7000 + j, 4)
     env.set_retarget(ref.RETARGET_PERIOD)
     st.c_extra["miner_route_found_blocks"] = st.c_extra.get("miner_route_found_blocks", 0) + mon.c.get("found_blocks", 0)
     for v in mon.viol:
